@@ -4,6 +4,7 @@ From PV Require Import Num NumR model.Geom proofs.LatticeFacts proofs.SiteFacts 
 From PV Require Import gen.GenFns proofs.SourceFacts.
 From PV Require Import proofs.SourceCorollaries.
 From PV Require Import model.Iter proofs.SearchFacts.
+From PV Require Import gen.GenFns proofs.SourceFacts proofs.SearchFacts.
 
 Theorem C13_lj_is_12_6 :
   forall (a b : ljR) (r : R), lcut NumR a = None -> (0 < r)%R -> (r * r)%R = r2_of a b -> energy
@@ -112,4 +113,18 @@ Theorem C13_lj_score_is_source :
     powi st = lj_score NN powi st.
 Proof. exact lj_score_is_source. Qed.
 Print Assumptions C13_lj_score_is_source.
+
+
+Theorem S_ljshape_energy_is_source :
+  forall (NN : Num) (powi : carrier NN -> Z -> carrier NN) (a b : list (lj NN)),
+    gen_ljshape_energy NN powi a b = ljshape_energy NN powi a b.
+Proof. exact ljshape_energy_is_source. Qed.
+Print Assumptions S_ljshape_energy_is_source.
+
+Theorem S_lj_trimer_is_source :
+  forall (NN : Num) (fsin fcos : carrier NN -> carrier NN) (pi_ radius angle distance : carrier
+    NN), gen_lj_trimer NN fsin fcos pi_ radius angle distance = lj_trimer NN pi_ fsin fcos (nofZ
+    7 / nofZ 2)%num radius angle distance.
+Proof. exact lj_trimer_is_source. Qed.
+Print Assumptions S_lj_trimer_is_source.
 
